@@ -22,6 +22,8 @@ type EvalCtx struct {
 	bound  int
 	depth  int
 	factSink *State
+	lenient bool               // assumed clause: references to ghost state that does not exist here void the clause
+	skip    bool
 	qvars  []string            // bound variable names in scope
 	trig   map[string][]string // bound variable -> candidate trigger terms (element reads indexed by it)
 }
@@ -239,6 +241,11 @@ func (x *EvalCtx) ident(name string) Val {
 	}
 	if v, ok := x.s.ghost[name]; ok {
 		return v
+	}
+	if x.lenient && (strings.HasPrefix(name, "exec_") || strings.HasPrefix(name, "net_")) {
+		// ghost state of another activation: the clause says nothing here
+		x.skip = true
+		return Val{T: boolT, S: "true"}
 	}
 	return x.fail("unknown identifier %s", name)
 }
@@ -688,7 +695,16 @@ func (x *EvalCtx) callExpr(n *ECall) Val {
 	case "sliceOf":
 		a := x.eval(n.Args[0])
 		pay := app("ipay", a.S)
-		return Val{T: types.NewSlice(types.NewInterfaceType(nil, nil)), Sl: &SliceV{app("psb", pay), app("pso", pay), app("psl", pay), app("psc", pay)}}
+		st := types.Type(types.NewSlice(types.NewInterfaceType(nil, nil)))
+		if len(n.Args) == 2 {
+			// sliceOf(x, "[]T"): the payload of an interface value holding a []T
+			if tn, ok := n.Args[1].(*EStr); ok {
+				if t, _ := x.specTypeAny(tn.V); t != nil {
+					st = t
+				}
+			}
+		}
+		return Val{T: st, Sl: &SliceV{app("psb", pay), app("pso", pay), app("psl", pay), app("psc", pay)}}
 	case "mapOf":
 		a := x.eval(n.Args[0])
 		mt := types.NewMap(strT, types.NewInterfaceType(nil, nil))
@@ -815,6 +831,13 @@ func (x *EvalCtx) callExpr(n *ECall) Val {
 		}
 		x.s.c.declare("textOfBytes", "(declare-fun textOfBytes (Int Int Int) Str)")
 		return Val{T: strT, S: app("textOfBytes", a.Sl.Base, a.Sl.Off, a.Sl.Len)}
+	case "allocated":
+		a := x.eval(n.Args[0])
+		pt := derefType(a.T)
+		if pt == nil || !x.s.c.eng.isTracked(pt) {
+			return x.fail("allocated(p): p must point to a tracked type")
+		}
+		return Val{T: boolT, S: sel(x.s.pureRoot("allocset|"+typeKey(pt), arrSort(sInt, sBool)), a.S)}
 	case "chr":
 		a := x.eval(n.Args[0])
 		x.s.c.declare("chrOf", "(declare-fun chrOf (Int) Str)")
@@ -889,6 +912,12 @@ func (x *EvalCtx) specTypeAny(name string) (types.Type, string) {
 		}
 	} else if x.pkg != nil {
 		scope = x.pkg.Pkg.Scope()
+	}
+	if strings.HasPrefix(name, "[]") && name != "[]any" {
+		if et, _ := x.specTypeAny(name[2:]); et != nil {
+			return types.NewSlice(et), ""
+		}
+		return nil, ""
 	}
 	switch name {
 	case "[]any":
